@@ -337,6 +337,35 @@ pub fn run(ctx: &Ctx) -> i32 {
             }
         });
     }
+    // several named entries in one chunk: every ordered pair / triple of names of different lengths
+    if ctx.wants_family("entry-names") {
+        let nm = ["crimson", "sky", "", "ab", "a", "\u{e9}t\u{e9}", "a-much-longer-entry-name-than-the-others"];
+        let mut cases: Vec<Vec<usize>> = Vec::new();
+        for a in 0..nm.len() {
+            for b in 0..nm.len() {
+                cases.push(vec![a, b]);
+                for c in 0..nm.len() {
+                    cases.push(vec![a, b, c]);
+                }
+            }
+        }
+        ctx.family("entry-names", cases.len() as u64, "new palette chunk whose 2 or 3 entries all carry a name: every ordered pair and triple over 7 names of different lengths (incl. empty and multi-byte); each entry must report exactly its own name", true);
+        cases.par_iter().for_each(|v| {
+            let case = || format!("names={:?}", v.iter().map(|i| nm[*i]).collect::<Vec<_>>());
+            if !ctx.wants("entry-names", &case) {
+                return;
+            }
+            let mut f = gen::file(2, 2, &Fmt::Rgba, &[10]);
+            let mut ents = pal_entries(v.len() + 1, 4);
+            for (k, i) in v.iter().enumerate() {
+                ents[k].flags = 1;
+                ents[k].name = Str::new(nm[*i]);
+            }
+            f.frames[0].push(new_palette(0, ents));
+            f.frames[0].push(Body::Layer(Layer::image("l")));
+            conform(ctx, "entry-names", &case, &f, &want);
+        });
+    }
     if ctx.wants_family("alias-256") {
         let ranges: [(u32, usize); 6] = [(3, 256), (250, 10), (256, 45), (1, 300), (255, 2), (200, 100)];
         let mut cases = Vec::new();
